@@ -7,9 +7,9 @@ Notify flag), notify_one releases one waiter and notify_all all of them, condvar
 the mutex before returning, and the notifier's prior writes happen-before the woken thread's
 continuation."
 
-Headline theorems about the twin's model of `src/rt/notify.rs`, `src/rt/condvar.rs`, `rt::park`,
-`thread::Set::unpark`, `src/thread.rs` (`World.notifyEffect`, `notifyWait1`, `notifyWait2`,
-`parkNow`, `Threads.unpark`, `Thread.setUnparked`, the stages of `World.runOp` for `cvWait`,
+Headline theorems about the twin's model of `src/rt/notify.rs`, `src/rt/condvar.rs`, `rt::park`, `rt::block`,
+`thread::Set::unpark`, `thread::Set::wake`, `src/thread.rs` (`World.notifyEffect`, `notifyWait1`, `notifyWait2`,
+`parkNow`, `blockNow`, `Threads.unpark`, `Threads.wake`, `Thread.setUnparked`, `Thread.wakeFrom`, the stages of `World.runOp` for `cvWait`,
 `cvOne`, `cvAll`, `nWait`, `nNotify`, `park`, `unpark`, `spawn`, `join`, and `World.runEpilogue`).
 As in `Props/C07.lean` they are ONE-STEP LAWS valid in EVERY state of the twin, plus monotone
 invariants over arbitrary sequences of steps; successor states are given outright (see
@@ -33,14 +33,24 @@ Vocabulary (definitions in `LoomVerif/Proofs/C08Notify.lean`, `C08Only.lean`; sp
                       (`Proofs/C17Tls.lean`, `liveKeys_spelled_out` in `Props/C17.lean`).
 
 * `Tok.toks s i`       the `park` token of thread `i` in the thread table `s` (`false` outside the table);
-                      `Tok.tokenOp op`: `op` is `park`, `cvwait`, `unpark`, `notify_one` or `notify_all`;
+                      `Tok.tokenOp op`: `op` is `park` or `unpark`;
                       `Tok.parksAt c op`, `Tok.parkStage w`: the stage (about to be run by the active thread)
-                      calls `rt::park`; `Tok.NoParkRun t w w'`: a run of stages in which thread `t` runs no
+                      calls `rt::park` (stage 0 of `park`); `Tok.NoParkRun t w w'`: a run of stages in which thread `t` runs no
                       such stage (all in `Proofs/C08Token.lean`, spelled out in `Park.frame_defs`).
 
-FINDING recorded here (with a concrete witness state in `Proofs/SyncExamples.lean`): F17
-`Park.unpark_raises_causality_at_once` — `unpark` joins the unparker's causality into the target immediately,
-even if the target never parks (the reference semantics stores it with the token and joins it at `park`).
+REPAIRED findings F17 and F15 (concrete witness states in `Proofs/SyncExamples.lean`).  F17 — `unpark` used to
+join the unparker's causality into the target immediately, even if the target never parks (old theorem
+`Park.unpark_raises_causality_at_once`); it is now stored with the token (`Thread.unparkCaus`) and acquired by the
+`park` that consumes the token or is woken by the unpark: `Park.unpark_orders_nothing_until_park` (one-step
+laws), `Park.unpark_happens_before_park` (the run-level law: `causality ⊔ unparkCaus` of every thread never shrinks
+under any stage of any operation, so the unparker's causality reaches the target's causality at the consuming
+`park` however many stages lie in between; `Hb.covT`, `Hb.Steps` in `Proofs/C08Hb.lean`, spelled out in
+`Hb_spelled_out`), `Park.setUnparked_table`, `Park.park_consumes_token`, `Park.unpark`.  F15 — `Condvar::wait` used to block through
+`rt::park` and `notify_one` / `notify_all` to wake through `Set::unpark`, so that a stored unpark made a `wait`
+return without any notification and an `unpark` woke a condvar waiter; the waiter now blocks with `rt::block`
+(blocked, not parked, token not looked at) and is woken with `Set::wake`: `Condvar.unpark_is_no_notification`,
+`Condvar.wake_table`, `Condvar.wait_enqueues_releases_blocks`, `Condvar.notify_one_fifo`, `Condvar.notify_all`;
+the condvar operations no longer touch any token (`Park.op_frame`).
 
 REPAIRED findings (the theorems now state the repaired behaviour).  F5/F6 — `unpark` used to make a thread
 that is blocked on a mutex or in a `join` runnable although nothing released / notified; when it ran, loom
@@ -61,6 +71,8 @@ import LoomVerif.Proofs.SyncExamples
 import LoomVerif.Proofs.C08Release
 import LoomVerif.Proofs.C08Epilogue
 import LoomVerif.Proofs.C08Token
+import LoomVerif.Proofs.C08Block
+import LoomVerif.Proofs.C08Hb
 
 namespace LoomVerif
 open C12 Sy C07 C08 C17
@@ -112,7 +124,7 @@ theorem Notify.wakes_blocked_waiter_only {w w' : World} {o : Nat} {s : NotifySt}
 exactly when the flag is NOT set — with the flag set it is not blocked. -/
 theorem Notify.wait_first_half (w : World) (o : Nat) (s : NotifySt)
     (h : w.exec.objs[o]? = some (.notify s)) (hs : s.spurious = false ∨ s.didSpur = true) :
-    w.notifyWait1 o = (w.branch o .opaque (block := !s.notified)).map (·, 1) := by
+    w.notifyWait1 o = (w.branch o .opaque (block := !s.notified) (wait := !s.notified)).map (·, 1) := by
   apply notifyWait1_plain h
   rcases hs with e | e <;> simp [e]
 
@@ -195,7 +207,7 @@ theorem Notify.flag_not_lost {wN wN' wW : World} {oN oW : Nat} {s0 s1 s2 : Notif
 theorem Notify.blocks_without_flag (w : World) (o : Nat) (s : NotifySt)
     (h : w.exec.objs[o]? = some (.notify s)) (hs : (s.spurious && !s.didSpur) = false)
     (hn : s.notified = false) :
-    w.notifyWait1 o = (w.branch o .opaque (block := true)).map (·, 1) := by
+    w.notifyWait1 o = (w.branch o .opaque (block := true) (wait := true)).map (·, 1) := by
   rw [notifyWait1_plain h hs, hn]; rfl
 
 /-- `Wait.notifier_hb` for `Notify` (and hence `join`): `notify` by N in any world, then any steps
@@ -221,7 +233,7 @@ theorem Notify.wait_first_half_may_spur (w : World) (o : Nat) (s : NotifySt)
       | .error e => .error e
       | .ok (p, true) =>
         (((w.setPath p).setObj o (.notify { s with didSpur := true })).yieldNow).map (·, 2)
-      | .ok (p, false) => ((w.setPath p).branch o .opaque (block := !s.notified)).map (·, 1) :=
+      | .ok (p, false) => ((w.setPath p).branch o .opaque (block := !s.notified) (wait := !s.notified)).map (·, 1) :=
   notifyWait1_maySpur h hs hd
 
 /-- what `notifyWait1` does to the object: nothing but (possibly) setting `did_spur`; the spurious
@@ -290,14 +302,15 @@ theorem Wait.helpers_keep_flags (w w' : World) (o : Nat) :
     (∀ v, w.sendEffect o v = .ok w' → NotifyKept w.exec.objs w'.exec.objs) ∧
     (∀ v, w.recvEffect o = .ok (w', v) → NotifyKept w.exec.objs w'.exec.objs) ∧
     (∀ b, w.refDecEffect o = .ok (w', b) → NotifyKept w.exec.objs w'.exec.objs) ∧
-    (∀ a blk, w.branch o a blk = .ok w' → NotifyKept w.exec.objs w'.exec.objs) ∧
+    (∀ a blk wt, w.branch o a blk wt = .ok w' → NotifyKept w.exec.objs w'.exec.objs) ∧
     (w.parkNow = .ok w' → NotifyKept w.exec.objs w'.exec.objs) ∧
+    (w.blockNow = .ok w' → NotifyKept w.exec.objs w'.exec.objs) ∧
     (w.yieldNow = .ok w' → NotifyKept w.exec.objs w'.exec.objs) ∧
     (w.threadDone = .ok w' → NotifyKept w.exec.objs w'.exec.objs) :=
   ⟨fun _ h => postAcquire_keeps h, releaseLock_keeps, fun _ h => postAcquireRead_keeps h,
     fun _ h => postAcquireWrite_keeps h, releaseRead_keeps, releaseWrite_keeps,
     fun _ h => sendEffect_keeps h, fun _ h => recvEffect_keeps h, fun _ h => refDecEffect_keeps h,
-    fun _ _ h => branch_keeps h, parkNow_keeps, yieldNow_keeps, threadDone_keeps⟩
+    fun _ _ _ h => branch_keeps h, parkNow_keeps, blockNow_keeps, yieldNow_keeps, threadDone_keeps⟩
 
 /-- Full case analysis of the stage machine: no stage of lock, tryLock, unlock, read, write,
 tryRead, tryWrite, unread, unwrite, cvWait, cvOne, cvAll, nWait, park, unpark, join — in any
@@ -311,29 +324,35 @@ theorem Wait.no_other_op_notifies {w w' : World} {c : TCtl} {op : Op}
 /-! ## 4. `Park.*`: the token -/
 
 /-- `Thread::set_unparked`, the decision table: a thread blocked in `park` (`parked`) is woken — `runnable`,
-no longer `parked`, its token field untouched; any other live thread — running, yielded, blocked on a lock, a
-join, a receive, a notify-wait — keeps its state and stores the token; a terminated thread is unchanged.
-Nothing but `state`, `parked`, `token` ever changes. -/
+no longer `parked`, its token field untouched — and ACQUIRES what its unparkers had done (`acquire_unpark`:
+`causality := causality ⊔ unparkCaus`, `unparkCaus := 0`); any other live thread — running, yielded, blocked on a
+lock, a join, a receive, a notify-wait, a condvar — keeps its state AND its causality and stores the token; a
+terminated thread is unchanged.  Nothing but `state`, `parked`, `token`, `causality`, `unparkCaus` ever
+changes. -/
 theorem Park.setUnparked_table (t : Thread) :
-    (t.parked = true → t.setUnparked = { t with state := .runnable, parked := false }) ∧
+    (t.parked = true → t.setUnparked =
+      { t with state := .runnable, parked := false,
+               causality := t.causality.join t.unparkCaus, unparkCaus := VV.zero }) ∧
     (t.parked = false → t.state ≠ .terminated → t.setUnparked = { t with token := true }) ∧
     (t.parked = false → t.state = .terminated → t.setUnparked = t) ∧
     t.setUnparked = { t with state := t.setUnparked.state, parked := t.setUnparked.parked,
-                             token := t.setUnparked.token } :=
+                             token := t.setUnparked.token, causality := t.setUnparked.causality,
+                             unparkCaus := t.setUnparked.unparkCaus } :=
   ⟨setUnparked_parked, setUnparked_live, setUnparked_terminated, setUnparked_fields t⟩
 
 /-- `unpark` wakes ONLY a parked thread (findings F5/F6, repaired).  For every thread `t` (and unparker `u`):
 `set_unparked` / `Thread::unpark` change `state` only when `t.parked`; a thread blocked with `parked = false`
-— on a lock, a join, a receive, a notify-wait — STAYS blocked, stays un-parked and gets `token = true` (and,
-through `Thread::unpark`, the unparker's causality).  The same at the level of the thread table, for the target
-`id` of `Set::unpark` (active thread or not). -/
+— on a lock, a join, a receive, a notify-wait, a condvar — STAYS blocked, stays un-parked and gets
+`token = true` (through `Thread::unpark` the unparker's causality is stored in `unparkCaus`; its `causality` is
+not touched: repair of finding F17).  The same at the level of the thread table, for the target `id` of
+`Set::unpark` (active thread or not). -/
 theorem Park.unpark_wakes_only_parked :
     (∀ t u : Thread,
       (t.setUnparked.state ≠ t.state → t.parked = true) ∧
       ((t.unpark u).state ≠ t.state → t.parked = true) ∧
       (t.parked = false → t.state = .blocked →
         t.setUnparked = { t with token := true } ∧
-        t.unpark u = { t with token := true, causality := t.causality.join u.causality } ∧
+        t.unpark u = { t with token := true, unparkCaus := t.unparkCaus.join u.causality } ∧
         (t.unpark u).state = .blocked ∧ (t.unpark u).parked = false ∧ (t.unpark u).token = true)) ∧
     (∀ (s : Threads) (id : Nat), id < s.threads.length →
       ((s.get id).parked = false →
@@ -346,9 +365,9 @@ theorem Park.unpark_wakes_only_parked :
   · rw [unpark_state] at h; exact setUnparked_state_ne h
   · have hl : t.state ≠ .terminated := by rw [hb]; simp
     have e1 := setUnparked_live hp hl
-    have e2 : t.unpark u = { t with token := true, causality := t.causality.join u.causality } := by
+    have e2 : t.unpark u = { t with token := true, unparkCaus := t.unparkCaus.join u.causality } := by
       unfold Thread.unpark
-      rw [setUnparked_live (t := { t with causality := t.causality.join u.causality }) hp hl]
+      rw [setUnparked_live (t := { t with unparkCaus := t.unparkCaus.join u.causality }) hp hl]
     refine ⟨e1, e2, ?_, ?_, ?_⟩ <;> rw [e2]
     · exact hb
     · exact hp
@@ -362,8 +381,8 @@ theorem Park.unpark_wakes_only_parked :
 `Thread.wake`, `set_runnable`, `set_parked`, `set_terminated`, `set_yield` keep `token`; hence every world
 transformer used by the lock, wait, channel and arc operations and by the epilogue — the acquisitions (which
 block the other contenders), the four release sites and `notify` (which wake them), the scheduling points
-`branch` / `yield_now` / `thread_done` (which block, yield or terminate the caller and run `schedule`), both
-halves of `Notify::wait` — leaves EVERY thread's token what it was; so does `Execution::schedule` itself. -/
+`branch` / `yield_now` / `rt::block` / `thread_done` (which block, yield or terminate the caller and run
+`schedule`), both halves of `Notify::wait` — leaves EVERY thread's token what it was; so does `Execution::schedule` itself. -/
 theorem Park.token_survives_blocking :
     (∀ t : Thread, t.setBlocked.token = t.token ∧ t.wake.token = t.token ∧
       t.setRunnable.token = t.token ∧ t.setParked.token = t.token ∧
@@ -381,8 +400,9 @@ theorem Park.token_survives_blocking :
       (w.notifyEffect o = .ok w' → ∀ i, (w'.ths.get i).token = (w.ths.get i).token) ∧
       (∀ st, w.notifyWait1 o = .ok (w', st) → ∀ i, (w'.ths.get i).token = (w.ths.get i).token) ∧
       (w.notifyWait2 o = .ok w' → ∀ i, (w'.ths.get i).token = (w.ths.get i).token) ∧
-      (∀ a blk, w.branch o a blk = .ok w' → ∀ i, (w'.ths.get i).token = (w.ths.get i).token) ∧
+      (∀ a blk wt, w.branch o a blk wt = .ok w' → ∀ i, (w'.ths.get i).token = (w.ths.get i).token) ∧
       (w.yieldNow = .ok w' → ∀ i, (w'.ths.get i).token = (w.ths.get i).token) ∧
+      (w.blockNow = .ok w' → ∀ i, (w'.ths.get i).token = (w.ths.get i).token) ∧
       (w.threadDone = .ok w' → ∀ i, (w'.ths.get i).token = (w.ths.get i).token)) ∧
     (∀ (e : Exec) (pk : Bool) (r : Exec × Bool), e.schedule pk = .ok r →
       ∀ i, (r.1.threads.get i).token = (e.threads.get i).token) := by
@@ -400,21 +420,27 @@ theorem Park.token_survives_blocking :
     fun h => (Tok.Keep_iff _ _).1 (Tok.notifyEffect_keep h),
     fun _ h => (Tok.Keep_iff _ _).1 (Tok.notifyWait1_keep h),
     fun h => (Tok.Keep_iff _ _).1 (Tok.notifyWait2_keep h),
-    fun _ _ h => (Tok.Keep_iff _ _).1 (Tok.branch_keep h),
+    fun _ _ _ h => (Tok.Keep_iff _ _).1 (Tok.branch_keep h),
     fun h => (Tok.Keep_iff _ _).1 (Tok.yieldNow_keep h),
+    fun h => (Tok.Keep_iff _ _).1 (Tok.blockNow_keep h),
     fun h => (Tok.Keep_iff _ _).1 (Tok.threadDone_keep h)⟩
 
-/-- `rt::park`.  With a stored token the token is consumed: `token := false` and NOTHING else — `schedule` is
-not called, so the path, the objects, the active thread and every thread's `state`, `parked`, `operation` are
-what they were (in particular the parker's state is unchanged: it does not block).  Without a token the thread
-is blocked in `park` — before `schedule` runs it is `parked`, `blocked`, its pending operation cleared — and
-the scheduler runs. -/
+/-- `rt::park`.  With a stored token the token is consumed: `token := false`, the stored unpark causality is
+acquired (`acquire_unpark`: `causality := causality ⊔ unparkCaus`, `unparkCaus := 0` — THIS is where an unpark
+that found the thread not parked orders something: repair of finding F17) and NOTHING else — `schedule` is not
+called, so the path, the objects, the active thread and every thread's `state`, `parked`, `operation` are what
+they were (in particular the parker's state is unchanged: it does not block), and every other thread's whole
+entry.  Without a token the thread is blocked in `park` — before `schedule` runs it is `parked`, `blocked`, its
+pending operation cleared — and the scheduler runs. -/
 theorem Park.park_consumes_token (w : World) :
     (w.ths.activeT.token = true →
-      w.parkNow = .ok (w.setThs (w.ths.modifyActive fun th => { th with token := false })) ∧
+      w.parkNow = .ok (w.setThs (w.ths.modifyActive fun th =>
+        ({ th with token := false }).acquireUnpark)) ∧
       ∀ w', w.parkNow = .ok w' →
         w'.exec.path = w.exec.path ∧ w'.exec.objs = w.exec.objs ∧ w'.ths.active = w.ths.active ∧
         w'.ths.activeT.token = false ∧
+        w'.ths.activeT.causality = w.ths.activeT.causality.join w.ths.activeT.unparkCaus ∧
+        w'.ths.activeT.unparkCaus = VV.zero ∧
         ∀ i, (w'.ths.get i).state = (w.ths.get i).state ∧ (w'.ths.get i).parked = (w.ths.get i).parked ∧
           (w'.ths.get i).operation = (w.ths.get i).operation ∧
           (i ≠ w.tid → w'.ths.get i = w.ths.get i)) ∧
@@ -431,9 +457,15 @@ theorem Park.park_consumes_token (w : World) :
   · rw [parkNow_token ht] at hw'
     cases hw'
     have hin : w.ths.activeId < w.ths.threads.length := Tok.toks_lt (s := w.ths) (i := w.tid) ht
-    refine ⟨rfl, rfl, rfl, ?_, fun i => ?_⟩
-    · show ((w.ths.modify w.ths.activeId _).get w.ths.activeId).token = false
-      rw [get_modify_self _ _ _ hin]
+    have hact : (w.setThs (w.ths.modifyActive fun th =>
+        ({ th with token := false }).acquireUnpark)).ths.activeT =
+        ({ w.ths.activeT with token := false }).acquireUnpark := by
+      show (w.ths.modify w.ths.activeId _).get w.ths.activeId = _
+      rw [get_modify_self _ _ _ hin]; rfl
+    refine ⟨rfl, rfl, rfl, ?_, ?_, ?_, fun i => ?_⟩
+    · rw [hact]; rfl
+    · rw [hact]; rfl
+    · rw [hact]; rfl
     · obtain ⟨a, b, c⟩ := Tok.state_modifyActive_token w.ths i
       exact ⟨a, b, c, fun hi => get_modify_ne _ _ _ _ hi⟩
   · have hin' : w.ths.activeId < w.ths.threads.length := hin
@@ -441,15 +473,17 @@ theorem Park.park_consumes_token (w : World) :
     rw [get_modify_self _ _ _ hin']
     rfl
 
-/-- `Set::unpark id`: for `id ≠ active` the unparker's causality is joined into the target
-(`Wait.notifier_hb` for unpark: the target's causality is at once above the unparker's) and
-`set_unparked` applied; for `id = active` only `set_unparked`.  Nobody else changes. -/
+/-- `Set::unpark id`: for `id ≠ active` the unparker's causality is joined into the target's `unparkCaus` (NOT
+into its `causality`) and `set_unparked` applied — which moves `unparkCaus` into `causality` exactly when the
+target was blocked in `park`; so the unparker's causality is below the target's `causality ⊔ unparkCaus`, below
+its `causality` only if it was parked (see `Park.unpark_orders_nothing_until_park`); for `id = active` only
+`set_unparked`.  Nobody else changes. -/
 theorem Park.unpark (s : Threads) (id : Nat) :
     (id ≠ s.activeId → s.unpark id = s.modify id fun t =>
-      ({ t with causality := t.causality.join s.activeT.causality }).setUnparked) ∧
+      ({ t with unparkCaus := t.unparkCaus.join s.activeT.causality }).setUnparked) ∧
     (id = s.activeId → s.unpark id = s.modifyActive Thread.setUnparked) ∧
     (id ≠ s.activeId → id < s.threads.length →
-      s.caus.le ((s.unpark id).get id).causality ∧
+      s.caus.le (((s.unpark id).get id).causality.join ((s.unpark id).get id).unparkCaus) ∧
       ((s.unpark id).get id).state = (s.get id).setUnparked.state ∧
       ((s.unpark id).get id).parked = (s.get id).setUnparked.parked ∧
       ((s.unpark id).get id).token = (s.get id).setUnparked.token ∧
@@ -461,9 +495,8 @@ theorem Park.unpark (s : Threads) (id : Nat) :
 /-- The vocabulary of the frame theorem, spelled out. -/
 theorem Park.frame_defs (s : Threads) (w w' : World) (c : TCtl) (op : Op) (t i : Nat) :
     Tok.toks s i = (s.get i).token ∧
-    (Tok.tokenOp op = true ↔ op = .park ∨ (∃ vi mi, op = .cvWait vi mi) ∨ (∃ b, op = .unpark b) ∨
-      (∃ vi, op = .cvOne vi) ∨ (∃ vi, op = .cvAll vi)) ∧
-    (Tok.parksAt c op = true ↔ (op = .park ∧ c.stage = 0) ∨ (∃ vi mi, op = .cvWait vi mi ∧ c.stage = 1)) ∧
+    (Tok.tokenOp op = true ↔ op = .park ∨ (∃ b, op = .unpark b)) ∧
+    (Tok.parksAt c op = true ↔ (op = .park ∧ c.stage = 0)) ∧
     Tok.parkStage w =
       (match (w.prog.threads.getD (w.ctlOf w.tid).body [])[(w.ctlOf w.tid).pc]? with
        | some op => Tok.parksAt (w.ctlOf w.tid) op
@@ -482,42 +515,39 @@ theorem Park.frame_defs (s : Threads) (w w' : World) (c : TCtl) (op : Op) (t i :
       · exact .refl _
       · exact .step hr hs hp
 
-/-- The frame theorem of the token, per operation.  (a) every stage of every operation other than `park`,
-`cvwait`, `unpark`, `notify_one`, `notify_all` keeps EVERY thread's token; (b) `unpark b` takes no token away and
-changes at most the target's (the thread table becomes `Set::unpark t`); (c) `notify_one` / `notify_all` take no
-token away; (d) `park` / `cvwait` keep the tokens of all OTHER threads; their stage that calls `rt::park`
-(stage 0 / stage 1) leaves the parker without a token, their other stages keep its token too. -/
+/-- The frame theorem of the token, per operation.  (a) every stage of every operation other than `park` and
+`unpark` keeps EVERY thread's token — `cvwait`, `notify_one`, `notify_all` included: since the repair of finding
+F15 the condvar blocks with `rt::block` and wakes with `Set::wake`, which neither look at nor write a token;
+(b) `unpark b` takes no token away and changes at most the target's (the thread table becomes `Set::unpark t`);
+(c) `park` keeps the tokens of all OTHER threads; its stage that calls `rt::park` (stage 0) leaves the parker
+without a token, its other stage keeps its token too. -/
 theorem Park.op_frame {w w' : World} {c : TCtl} {op : Op} (h : w.runOp c op = .ok w') :
     (Tok.tokenOp op = false → ∀ i, (w'.ths.get i).token = (w.ths.get i).token) ∧
+    ((∃ vi mi, op = .cvWait vi mi) ∨ (∃ vi, op = .cvOne vi) ∨ (∃ vi, op = .cvAll vi) →
+      ∀ i, (w'.ths.get i).token = (w.ths.get i).token) ∧
     (∀ b, op = .unpark b →
       (∀ i, (w.ths.get i).token = true → (w'.ths.get i).token = true) ∧
       ∃ t, w.threadOf b = .ok t ∧ w'.ths = w.ths.unpark t ∧
         ∀ i, i ≠ t → (w'.ths.get i).token = (w.ths.get i).token) ∧
-    ((∃ vi, op = .cvOne vi) ∨ (∃ vi, op = .cvAll vi) →
-      ∀ i, (w.ths.get i).token = true → (w'.ths.get i).token = true) ∧
-    (op = .park ∨ (∃ vi mi, op = .cvWait vi mi) →
+    (op = .park →
       (∀ i, i ≠ w.tid → (w'.ths.get i).token = (w.ths.get i).token) ∧
       (Tok.parksAt c op = false → ∀ i, (w'.ths.get i).token = (w.ths.get i).token) ∧
       (Tok.parksAt c op = true → (w'.ths.get w.tid).token = false)) := by
   refine ⟨fun hop => (Tok.Keep_iff _ _).1 (Tok.runOp_keep hop h), ?_, ?_, ?_⟩
+  · rintro (⟨vi, mi, rfl⟩ | ⟨vi, rfl⟩ | ⟨vi, rfl⟩) <;>
+      exact (Tok.Keep_iff _ _).1 (Tok.runOp_keep rfl h)
   · rintro b rfl
     exact Tok.runOp_unpark h
-  · rintro (⟨vi, rfl⟩ | ⟨vi, rfl⟩)
-    · exact Tok.runOp_cvOne h
-    · exact Tok.runOp_cvAll h
-  · rintro (rfl | ⟨vi, mi, rfl⟩)
-    · obtain ⟨h1, h2, h3⟩ := Tok.runOp_park h
-      refine ⟨h1, fun hp => (Tok.Keep_iff _ _).1 (h2 (by simpa [Tok.parksAt] using hp)),
-        fun hp => h3 (by simpa [Tok.parksAt] using hp)⟩
-    · obtain ⟨h1, h2, h3⟩ := Tok.runOp_cvWait h
-      refine ⟨h1, fun hp => (Tok.Keep_iff _ _).1 (h2 (by simpa [Tok.parksAt] using hp)),
-        fun hp => h3 (by simpa [Tok.parksAt] using hp)⟩
+  · rintro rfl
+    obtain ⟨h1, h2, h3⟩ := Tok.runOp_park h
+    refine ⟨h1, fun hp => (Tok.Keep_iff _ _).1 (h2 (by simpa [Tok.parksAt] using hp)),
+      fun hp => h3 (by simpa [Tok.parksAt] using hp)⟩
 
 /-- The frame theorem of the token, per step: ONE stage of the active thread (`World.stepActive`: any stage of
 any operation — atomics, cells, locks, condvars, notifies, channels, `Arc`s, thread-locals, lazy statics,
 futures, `spawn`, `join`, `yield` … — or of the epilogue), in any world, takes NO token away — except that the
-stage that calls `rt::park` consumes the parker's own; and a stage of an operation other than `park`, `cvwait`,
-`unpark`, `notify_one`, `notify_all` changes no token at all. -/
+stage that calls `rt::park` consumes the parker's own; and a stage of an operation other than `park` and
+`unpark` changes no token at all. -/
 theorem Park.step_frame {w w' : World} (h : w.stepActive = .ok w') :
     (∀ i, (i = w.tid → Tok.parkStage w = false) → (w.ths.get i).token = true →
       (w'.ths.get i).token = true) ∧
@@ -532,18 +562,20 @@ live and not blocked in `park` in `w0` (running, yielded, or blocked on a lock /
 `w1` is any world whose thread table is `Set::unpark t` of that of `w0`; from `w1` the twin runs ANY stages of
 ANY threads (`Tok.NoParkRun`: lock, unlock, join, … stages of the other threads and of `t` itself, blocking
 and waking `t` any number of times) among which `t` runs no stage that calls `rt::park`; then `t`, active in
-`w`, calls `rt::park`: it still has the token, and `park` returns at once — the token is cleared and nothing
-else happens: no scheduling point, the path, the objects, the active thread and every thread's state are what
-they were; `t` does not block. -/
+`w`, calls `rt::park`: it still has the token, and `park` returns at once — the token is cleared, the stored
+unpark causality is acquired (`acquire_unpark`) and nothing else happens: no scheduling point, the path, the
+objects, the active thread and every thread's state are what they were; `t` does not block. -/
 theorem Park.unpark_then_park_never_blocks {w0 w1 w : World} {t : Nat}
     (hin : t < w0.ths.threads.length) (hp : (w0.ths.get t).parked = false)
     (hl : (w0.ths.get t).state ≠ .terminated)
     (hu : w1.ths = w0.ths.unpark t) (hrun : Tok.NoParkRun t w1 w) (ht : w.tid = t) :
     (w1.ths.get t).token = true ∧ (w.ths.get t).token = true ∧
-    w.parkNow = .ok (w.setThs (w.ths.modifyActive fun th => { th with token := false })) ∧
+    w.parkNow = .ok (w.setThs (w.ths.modifyActive fun th =>
+      ({ th with token := false }).acquireUnpark)) ∧
     ∀ w', w.parkNow = .ok w' →
       w'.exec.path = w.exec.path ∧ w'.exec.objs = w.exec.objs ∧ w'.ths.active = w.ths.active ∧
       (w'.ths.get t).token = false ∧
+      (w'.ths.get t).causality = (w.ths.get t).causality.join (w.ths.get t).unparkCaus ∧
       ∀ i, (w'.ths.get i).state = (w.ths.get i).state ∧ (w'.ths.get i).parked = (w.ths.get i).parked := by
   obtain ⟨h2, h3⟩ := Tok.unpark_then_park hin hp hl hu hrun ht
   have h1 : (w1.ths.get t).token = true := by
@@ -555,13 +587,15 @@ theorem Park.unpark_then_park_never_blocks {w0 w1 w : World} {t : Nat}
     exact this
   obtain ⟨_, hcons⟩ := (Park.park_consumes_token w).1 hact
   refine ⟨h1, h2, h3, fun w' hw' => ?_⟩
-  obtain ⟨a, b, c, d, e⟩ := hcons w' hw'
-  refine ⟨a, b, c, ?_, fun i => ⟨(e i).1, (e i).2.1⟩⟩
-  have : w'.ths.activeT = w'.ths.get t := by
+  obtain ⟨a, b, c, d, d2, _, e⟩ := hcons w' hw'
+  have this : w'.ths.activeT = w'.ths.get t := by
     show w'.ths.get w'.ths.activeId = _
     have : w'.ths.activeId = w.ths.activeId := by unfold Threads.activeId; rw [c]
     rw [this]; exact congrArg _ ht
-  rw [← this]; exact d
+  have this2 : w.ths.activeT = w.ths.get t := congrArg _ ht
+  refine ⟨a, b, c, ?_, ?_, fun i => ⟨(e i).1, (e i).2.1⟩⟩
+  · rw [← this]; exact d
+  · rw [← this, ← this2]; exact d2
 
 /-- … in particular when the unpark is the operation `unpark b` (run by any thread, `t` itself included). -/
 theorem Park.unpark_op_then_park_never_blocks {w0 w1 w : World} {c : TCtl} {b t : Nat}
@@ -569,7 +603,8 @@ theorem Park.unpark_op_then_park_never_blocks {w0 w1 w : World} {c : TCtl} {b t 
     (hp : (w0.ths.get t).parked = false) (hl : (w0.ths.get t).state ≠ .terminated)
     (hu : w0.runOp c (.unpark b) = .ok w1) (hrun : Tok.NoParkRun t w1 w) (ht : w.tid = t) :
     (w1.ths.get t).token = true ∧ (w1.ths.get t).state = (w0.ths.get t).state ∧
-    w.parkNow = .ok (w.setThs (w.ths.modifyActive fun th => { th with token := false })) := by
+    w.parkNow = .ok (w.setThs (w.ths.modifyActive fun th =>
+      ({ th with token := false }).acquireUnpark)) := by
   obtain ⟨_, t', ht', hth, _⟩ := Tok.runOp_unpark hu
   rw [hb] at ht'; cases ht'
   obtain ⟨a, _, c', _⟩ := Park.unpark_then_park_never_blocks hin hp hl hth hrun ht
@@ -588,7 +623,7 @@ thread 0 is woken and its `join` returns normally, token kept (`Ex.wF6run`).  Th
 still panic in the model; `unpark` no longer produces them. -/
 theorem Park.unpark_keeps_lock_waiter_blocked :
     ((Ex.wF5.ths.get 1).state = .blocked ∧ (Ex.wF5.ths.get 1).parked = false ∧
-      (Ex.wF5.ths.get 1).operation = some ⟨Ex.wF5.mutexObj 0, .opaque⟩) ∧
+      (Ex.wF5.ths.get 1).operation = some ⟨Ex.wF5.mutexObj 0, .opaque, true⟩) ∧
     (Ex.wF5.runOp {} (.unpark 1)).toOption.map
       (fun w' => ((w'.ths.get 1).state, (w'.ths.get 1).token, (w'.ths.get 1).parked,
         (w'.getMutex 0).toOption.map (·.lock))) =
@@ -599,7 +634,7 @@ theorem Park.unpark_keeps_lock_waiter_blocked :
         (w'.getMutex 0).toOption.map (·.lock))) =
       some (.runnable, false, some 1, some (some 1)) ∧
     ((Ex.wF6.ths.get 0).state = .blocked ∧ (Ex.wF6.ths.get 0).parked = false ∧
-      (Ex.wF6.ths.get 0).operation = some ⟨4, .opaque⟩) ∧
+      (Ex.wF6.ths.get 0).operation = some ⟨4, .opaque, true⟩) ∧
     (Ex.wF6.runOp { body := 2 } (.unpark 0)).toOption.map
       (fun w' => ((w'.ths.get 0).state, (w'.ths.get 0).token, (w'.ths.get 0).parked)) =
       some (.blocked, true, false) ∧
@@ -612,16 +647,150 @@ theorem Park.unpark_keeps_lock_waiter_blocked :
   ⟨by decide, Ex.F5_unpark, Ex.F5_no_panic.1, Ex.F5_no_panic.2, by decide, Ex.F6_unpark,
     Ex.F6_no_panic, Ex.F5_old_state_panics, Ex.F6_old_state_panics⟩
 
-/-- Refuted full form (finding F17): the unparker's causality reaches the target at the `unpark`,
-not at the target's `park`.  `Ex.wF17`: thread 1 (causality `[1,1,0,0,0]`) is runnable and never
-parks; after thread 0 (causality `[5,0,0,0,0]`) unparks it, its causality is `[5,1,0,0,0]` (it is still
-`runnable` and holds the token). -/
-theorem Park.unpark_raises_causality_at_once :
-    (Ex.wF17.ths.get 1).causality = Ex.vv [1, 1, 0, 0, 0] ∧
-    ((Ex.wF17.ths.unpark 1).get 1).causality = Ex.vv [5, 1, 0, 0, 0] ∧
-    ((Ex.wF17.ths.unpark 1).get 1).state = .runnable ∧
-    ((Ex.wF17.ths.unpark 1).get 1).token = true :=
-  ⟨by decide +kernel, Ex.F17_unpark.1, Ex.F17_unpark.2.1, Ex.F17_unpark.2.2⟩
+/-- **An `unpark` orders nothing until a `park` consumes it** (finding F17, repaired; the refuted form was
+`Park.unpark_raises_causality_at_once`).  One-step laws, valid for ALL threads / thread tables / worlds.
+(1) `Thread::unpark` of a thread that is NOT blocked in `park`: its `causality` is UNCHANGED; the unparker's
+causality is joined into `unparkCaus` (nothing stored before is lost).  (2) `Thread::unpark` of a thread blocked
+in `park`: it is woken and acquires: its causality becomes `causality ⊔ unparkCaus ⊔ unparker's`, `unparkCaus` is
+reset.  (3) the same for the target `id ≠ active` of `Set::unpark` (the unparker is the active thread).  (4) the
+consuming `park` (token path): the parker's causality becomes `causality ⊔ unparkCaus` — hence it dominates
+every `u` that was below `unparkCaus`, in particular the causality every unparker had at the time of its
+`unpark` (whatever happened in between: `Park.unpark_happens_before_park`) — and `unparkCaus` is reset.  (5) immediate
+composition: `Set::unpark t` by the active thread followed by `t`'s consuming `park` in the resulting table:
+`t`'s causality dominates the unparker's causality at the time of the `unpark`, and before that `park` it was
+what it had been.  Concretely (`Ex.wF17`, kernel-checked): thread 1 (causality `[1,1,0,0,0]`) is runnable; after
+thread 0 (causality `[5,0,0,0,0]`) unparks it its causality is still `[1,1,0,0,0]`, `unparkCaus = [5,0,0,0,0]`,
+it is runnable and holds the token; when it then calls `park` the call returns at once with causality
+`[5,1,0,0,0]`, `unparkCaus = 0`, token cleared. -/
+theorem Park.unpark_orders_nothing_until_park :
+    (∀ t u : Thread, t.parked = false →
+      (t.unpark u).causality = t.causality ∧
+      (t.unpark u).unparkCaus = t.unparkCaus.join u.causality ∧
+      t.unparkCaus.le (t.unpark u).unparkCaus ∧ u.causality.le (t.unpark u).unparkCaus) ∧
+    (∀ t u : Thread, t.parked = true →
+      (t.unpark u).causality = t.causality.join (t.unparkCaus.join u.causality) ∧
+      (t.unpark u).unparkCaus = VV.zero ∧ (t.unpark u).state = .runnable ∧
+      u.causality.le (t.unpark u).causality) ∧
+    (∀ (s : Threads) (id : Nat), id ≠ s.activeId → id < s.threads.length →
+      ((s.get id).parked = false →
+        ((s.unpark id).get id).causality = (s.get id).causality ∧
+        ((s.unpark id).get id).unparkCaus = (s.get id).unparkCaus.join s.caus) ∧
+      ((s.get id).parked = true →
+        s.caus.le ((s.unpark id).get id).causality ∧ ((s.unpark id).get id).state = .runnable ∧
+        ((s.unpark id).get id).unparkCaus = VV.zero)) ∧
+    (∀ (w w' : World), w.ths.activeT.token = true → w.parkNow = .ok w' →
+      w'.ths.activeT.causality = w.ths.activeT.causality.join w.ths.activeT.unparkCaus ∧
+      w'.ths.activeT.unparkCaus = VV.zero ∧
+      ∀ u : VV, u.le w.ths.activeT.unparkCaus → u.le w'.ths.activeT.causality) ∧
+    (∀ (w0 w w' : World) (t : Nat), t ≠ w0.tid → t < w0.ths.threads.length →
+      (w0.ths.get t).parked = false → (w0.ths.get t).state ≠ .terminated →
+      w.ths = { w0.ths.unpark t with active := some t } → w.parkNow = .ok w' →
+      (w.ths.get t).causality = (w0.ths.get t).causality ∧
+      w0.ths.caus.le (w'.ths.get t).causality ∧ (w'.ths.get t).token = false ∧
+      (w'.ths.get t).state = (w0.ths.get t).state) ∧
+    ((Ex.wF17.ths.get 1).causality = Ex.vv [1, 1, 0, 0, 0] ∧
+      ((Ex.wF17.ths.unpark 1).get 1).causality = Ex.vv [1, 1, 0, 0, 0] ∧
+      ((Ex.wF17.ths.unpark 1).get 1).unparkCaus = Ex.vv [5, 0, 0, 0, 0] ∧
+      ((Ex.wF17.ths.unpark 1).get 1).state = .runnable ∧
+      ((Ex.wF17.ths.unpark 1).get 1).token = true ∧
+      Ex.wF17park.toOption.map (fun w' => ((w'.ths.get 1).causality, (w'.ths.get 1).unparkCaus,
+        (w'.ths.get 1).token, (w'.ths.get 1).state, w'.ths.active)) =
+      some (Ex.vv [5, 1, 0, 0, 0], VV.zero, false, .runnable, some 1)) := by
+  refine ⟨fun t u hp => ?_, fun t u hp => ?_, fun s id hne hin => ⟨fun hp => ?_, fun hp => ?_⟩,
+    fun w w' ht hw' => ?_, fun w0 w w' t hne hin hp hl hw hw' => ?_,
+    ⟨by decide +kernel, Ex.F17_unpark.1, Ex.F17_unpark.2.1, Ex.F17_unpark.2.2.1, Ex.F17_unpark.2.2.2,
+      Ex.F17_park_acquires⟩⟩
+  · obtain ⟨h1, h2⟩ := unpark_causality_not_parked u hp
+    exact ⟨h1, h2, by rw [h2]; exact VV.le_join_left _ _, by rw [h2]; exact VV.le_join_right _ _⟩
+  · obtain ⟨h1, h2⟩ := unpark_causality_parked u hp
+    refine ⟨h1, h2, ?_, ?_⟩
+    · rw [unpark_state, setUnparked_parked hp]
+    · rw [h1]; exact VV.le_trans (VV.le_join_right _ _) (VV.le_join_right _ _)
+  · rw [(unpark_other_get hne hin).1]
+    exact unpark_causality_not_parked _ hp
+  · rw [(unpark_other_get hne hin).1]
+    obtain ⟨h1, h2⟩ := unpark_causality_parked s.activeT hp
+    refine ⟨?_, ?_, h2⟩
+    · rw [h1]; exact VV.le_trans (VV.le_join_right _ _) (VV.le_join_right _ _)
+    · rw [unpark_state, setUnparked_parked hp]
+  · obtain ⟨_, hc⟩ := (Park.park_consumes_token w).1 ht
+    obtain ⟨_, _, _, _, h5, h6, _⟩ := hc w' hw'
+    exact ⟨h5, h6, fun u hu => by rw [h5]; exact VV.le_trans hu (VV.le_join_right _ _)⟩
+  · have hne' : t ≠ w0.ths.activeId := hne
+    obtain ⟨e1, _, _⟩ := unpark_other_get hne' hin
+    obtain ⟨c1, c2⟩ := unpark_causality_not_parked w0.ths.activeT hp
+    have hget : w.ths.get t = (w0.ths.get t).unpark w0.ths.activeT := by rw [hw]; exact e1
+    have hact : w.ths.activeT = w.ths.get t := by
+      show w.ths.get w.ths.activeId = _
+      rw [hw]; rfl
+    have htok : w.ths.activeT.token = true := by
+      rw [hact, hget, unpark_token, setUnparked_live hp hl]
+    obtain ⟨_, hc⟩ := (Park.park_consumes_token w).1 htok
+    obtain ⟨_, _, h3, h4, h5, _, h7⟩ := hc w' hw'
+    have hact' : w'.ths.activeT = w'.ths.get t := by
+      show w'.ths.get w'.ths.activeId = _
+      have : w'.ths.activeId = t := by unfold Threads.activeId; rw [h3, hw]; rfl
+      rw [this]
+    refine ⟨by rw [hget]; exact c1, ?_, by rw [← hact']; exact h4, ?_⟩
+    · rw [← hact', h5, hact, hget, c1, c2]
+      exact VV.le_trans (VV.le_join_right _ _) (VV.le_join_right _ _)
+    · rw [(h7 t).1, hget, unpark_state, setUnparked_live hp hl]
+
+theorem Hb_spelled_out (u : VV) (t : Thread) (w w' : World) :
+    (Hb.covT u t ↔ u.le (t.causality.join t.unparkCaus)) ∧
+    (Hb.Steps w w' ↔ w' = w ∨ ∃ w1, Hb.Steps w w1 ∧ w1.stepActive = .ok w') := by
+  refine ⟨Iff.rfl, ?_⟩
+  constructor
+  · intro h
+    cases h with
+    | refl => exact .inl rfl
+    | step hr hs => exact .inr ⟨_, hr, hs⟩
+  · rintro (rfl | ⟨w1, hr, hs⟩)
+    · exact .refl _
+    · exact .step hr hs
+
+/-- **The unparker's past happens-before the continuation of the `park` that consumes the unpark — however far
+apart they are** (finding F17, repaired: the run-level law).  What a thread knows or WILL know at its next `park` —
+`causality ⊔ unparkCaus` — never shrinks: ONE stage of the active thread (`World.stepActive`: any stage of any
+operation — atomics, cells, locks, condvars, notifies, channels, `Arc`s, thread-locals, lazy statics, futures,
+`spawn`, `join`, `park`, `unpark`, `yield` … — or of the epilogue), in ANY world, keeps every `u` that was below
+it below it, for EVERY thread.  Hence: thread `t` is in the thread table of `w0`; `w1` is any world whose thread
+table is `Set::unpark t` of that of `w0` (the unparker is `w0`'s active thread, `t` itself or another one; `t` may
+be parked, running, blocked on something else …); from `w1` the twin runs ANY stages of ANY threads (`Hb.Steps`:
+`t` may park and be woken, block, be unparked again …) up to `w`.  Then (a) the causality the unparker had at the
+time of the `unpark` is below `t`'s `causality ⊔ unparkCaus` in `w`; (b) if `t` is active in `w`, holds a token and
+calls `rt::park`, the call returns at once and `t`'s causality is above the unparker's causality at the time of
+the `unpark`; (c) if `t` is blocked in `park` in `w` and is unparked (`Set::unpark t`, by any thread), it wakes up
+with its causality above it. -/
+theorem Park.unpark_happens_before_park :
+    (∀ (w w' : World) (u : VV), w.stepActive = .ok w' →
+      ∀ i, Hb.covT u (w.ths.get i) → Hb.covT u (w'.ths.get i)) ∧
+    (∀ (w0 w1 w : World) (t : Nat), t < w0.ths.threads.length → w1.ths = w0.ths.unpark t → Hb.Steps w1 w →
+      w0.ths.caus.le ((w.ths.get t).causality.join (w.ths.get t).unparkCaus) ∧
+      (∀ w', w.tid = t → (w.ths.get t).token = true → w.parkNow = .ok w' →
+        w0.ths.caus.le (w'.ths.get t).causality ∧ (w'.ths.get t).state = (w.ths.get t).state ∧
+        w'.ths.active = w.ths.active) ∧
+      ((w.ths.get t).parked = true →
+        w0.ths.caus.le ((w.ths.unpark t).get t).causality ∧ ((w.ths.unpark t).get t).state = .runnable)) := by
+  refine ⟨fun w w' u h i hi => Hb.stepActive_le h (Hb.Le.refl u _) i hi, fun w0 w1 w t hin hu hrun => ?_⟩
+  have h1 : Hb.covT w0.ths.caus (w1.exec.threads.get t) := by
+    rw [show w1.exec.threads = w0.ths.unpark t from hu]
+    exact Hb.covT_after_unpark hin
+  have h2 : Hb.covT w0.ths.caus (w.ths.get t) := hrun.covT h1
+  refine ⟨h2, fun w' ht htok hp => ?_, fun hpk => ?_⟩
+  · have hact : w.ths.activeT = w.ths.get t := congrArg _ ht
+    obtain ⟨_, hc⟩ := (Park.park_consumes_token w).1 (by rw [hact]; exact htok)
+    obtain ⟨_, _, h3, _, h5, _, h7⟩ := hc w' hp
+    have hact' : w'.ths.activeT = w'.ths.get t := by
+      show w'.ths.get w'.ths.activeId = _
+      have : w'.ths.activeId = w.ths.activeId := by unfold Threads.activeId; rw [h3]
+      rw [this]; exact congrArg _ ht
+    refine ⟨?_, (h7 t).1, h3⟩
+    rw [← hact', h5, hact]
+    exact h2
+  · refine ⟨Hb.covT_unpark_parked h2 hpk, ?_⟩
+    have hin' := Hb.get_parked_lt hpk
+    exact ((Park.unpark_wakes_only_parked.2 w.ths t hin').2 hpk).1
 
 /-- The four release sites — `Mutex::release_lock`, `RwLock::release_read_lock`,
 `RwLock::release_write_lock` and the send into an empty channel — in ANY world, on ANY object: EVERY thread's
@@ -665,11 +834,11 @@ with a token stored, runs the first stage of `lock` on the mutex held by thread 
 keeps the token. -/
 theorem Park.release_keeps_token :
     ((Ex.wF18.ths.get 1).state = .runnable ∧ (Ex.wF18.ths.get 1).token = true ∧
-      (Ex.wF18.ths.get 1).operation = some ⟨Ex.wF18.mutexObj 0, .opaque⟩) ∧
+      (Ex.wF18.ths.get 1).operation = some ⟨Ex.wF18.mutexObj 0, .opaque, true⟩) ∧
     (Ex.wF18.releaseLock 0).toOption.map (fun w' => ((w'.ths.get 1).state, (w'.ths.get 1).token)) =
       some (.runnable, true) ∧
     ((Ex.wF18b.ths.get 1).state = .blocked ∧ (Ex.wF18b.ths.get 1).token = true ∧
-      (Ex.wF18b.ths.get 1).operation = some ⟨Ex.wF18b.mutexObj 0, .opaque⟩) ∧
+      (Ex.wF18b.ths.get 1).operation = some ⟨Ex.wF18b.mutexObj 0, .opaque, true⟩) ∧
     (Ex.wF18b.releaseLock 0).toOption.map (fun w' => ((w'.ths.get 1).state, (w'.ths.get 1).token)) =
       some (.runnable, true) ∧
     (Ex.wF18c.runOp { body := 1 } (.lock 0)).toOption.map
@@ -679,45 +848,144 @@ theorem Park.release_keeps_token :
 
 /-! ## 5. `Condvar` -/
 
-/-- `notify_one`, second stage: the FIRST element of `waiters` is removed and unparked
-(`Set::unpark`), the rest keeps its order; with no waiter nothing changes. -/
+/-- `notify_one`, second stage: the FIRST element of `waiters` is removed and woken (`Set::wake` — not
+`Set::unpark`: no token is handed out, repair of finding F15), the rest keeps its order; with no waiter nothing
+changes. -/
 theorem Condvar.notify_one_fifo (w : World) (c : TCtl) (vi : Nat) (s : CondvarSt)
     (h : w.exec.objs[w.cvObj vi]? = some (.condvar s)) (hs : c.stage ≠ 0) :
     (s.waiters = [] → w.runOp c (.cvOne vi) = .ok (w.complete .unit)) ∧
     (∀ t rest, s.waiters = t :: rest →
       w.runOp c (.cvOne vi) = .ok
         (((w.setObj (w.cvObj vi) (.condvar { s with waiters := rest })).setThs
-          (w.ths.unpark t)).complete .unit)) :=
+          (w.ths.wake t)).complete .unit)) :=
   ⟨cvOne_empty h hs, fun _ _ hw => cvOne_first h hs hw⟩
 
-/-- `notify_all`, second stage: `waiters` becomes `[]` and every former waiter is unparked, one
-after the other in queue order.  If the queue has no duplicates and does not contain the notifier,
-each former waiter has been unparked exactly once by the notifier and nobody else changed. -/
+/-- `notify_all`, second stage: `waiters` becomes `[]` and every former waiter is woken (`Set::wake`), one
+after the other in queue order.  If the queue has no duplicates, each former waiter other than the notifier has
+been woken exactly once by the notifier (`Thread.wakeFrom`) and nobody else changed (the notifier itself, should
+it be in the queue, is left alone). -/
 theorem Condvar.notify_all (w : World) (c : TCtl) (vi : Nat) (s : CondvarSt)
     (h : w.exec.objs[w.cvObj vi]? = some (.condvar s)) (hs : c.stage ≠ 0) :
     w.runOp c (.cvAll vi) = .ok
       (((w.setObj (w.cvObj vi) (.condvar { s with waiters := [] })).setThs
-        (s.waiters.foldl (fun ths t => ths.unpark t) w.ths)).complete .unit) ∧
-    (s.waiters.Nodup → w.ths.activeId ∉ s.waiters →
-      (∀ t, t ∈ s.waiters → t < w.ths.threads.length →
-        (s.waiters.foldl (fun ths t => ths.unpark t) w.ths).get t =
-          (w.ths.get t).unpark w.ths.activeT) ∧
-      (∀ j, j ∉ s.waiters →
-        (s.waiters.foldl (fun ths t => ths.unpark t) w.ths).get j = w.ths.get j)) :=
-  ⟨cvAll_eq h hs, fun hnd hact => foldl_unpark _ _ hnd hact⟩
+        (s.waiters.foldl (fun ths t => ths.wake t) w.ths)).complete .unit) ∧
+    (s.waiters.Nodup →
+      (∀ t, t ∈ s.waiters → t ≠ w.ths.activeId → t < w.ths.threads.length →
+        (s.waiters.foldl (fun ths t => ths.wake t) w.ths).get t =
+          (w.ths.get t).wakeFrom w.ths.activeT) ∧
+      (∀ j, j ∉ s.waiters ∨ j = w.ths.activeId →
+        (s.waiters.foldl (fun ths t => ths.wake t) w.ths).get j = w.ths.get j)) :=
+  ⟨cvAll_eq h hs, fun hnd => foldl_wake _ _ hnd⟩
+
+/-- `Set::wake id` and `Thread.wakeFrom`, the decision table (what `notify_one` / `notify_all` do to a waiter).
+For `id = active` nothing happens.  For `id ≠ active` (in the table) the waker's causality is joined into the
+target's `causality` AT ONCE (the notifier's prior writes happen-before the waiter's continuation); a thread that
+blocked itself with `rt::block` — `blocked`, NOT `parked`: a condvar waiter — becomes `runnable`; any other
+thread (running, yielded, terminated, or blocked in `park`) keeps its state; the token and `unparkCaus` are never
+touched; nobody else changes. -/
+theorem Condvar.wake_table :
+    (∀ t u : Thread, t.state = .blocked → t.parked = false →
+      t.wakeFrom u = { t with state := .runnable, parked := false,
+                              causality := t.causality.join u.causality }) ∧
+    (∀ t u : Thread, t.state ≠ .blocked ∨ t.parked = true →
+      t.wakeFrom u = { t with causality := t.causality.join u.causality }) ∧
+    (∀ t u : Thread, (t.wakeFrom u).token = t.token ∧ (t.wakeFrom u).unparkCaus = t.unparkCaus ∧
+      (t.wakeFrom u).causality = t.causality.join u.causality) ∧
+    (∀ s : Threads, s.wake s.activeId = s) ∧
+    (∀ (s : Threads) (id : Nat), id ≠ s.activeId → id < s.threads.length →
+      (s.wake id).get id = (s.get id).wakeFrom s.activeT ∧
+      s.caus.le ((s.wake id).get id).causality ∧
+      (∀ j, j ≠ id → (s.wake id).get j = s.get j)) :=
+  ⟨fun _ _ hb hp => wakeFrom_blocked hb hp, fun _ _ h => wakeFrom_other h,
+    fun t u => ⟨C08.wakeFrom_token t u, wakeFrom_unparkCaus t u, wakeFrom_causality t u⟩,
+    wake_self, fun _ _ h hin => wake_other_get h hin⟩
+
+/-- **`unpark` does not wake a condvar waiter, and a stored unpark is not a notification** (finding F15,
+repaired).  (1) `rt::block`: whatever the caller's token, it blocks itself — before `schedule` runs it is
+`blocked`, its pending operation cleared, its `parked` flag (`false` for a thread that runs: `set_runnable` clears
+it) and its token untouched — and the scheduler runs: the result
+does not depend on `token` (two worlds that differ only in the caller's token take the same step, up to that
+token).  (2) `Set::unpark` / `Thread::unpark` of such a waiter (blocked, not parked) leaves it `blocked`, not
+parked, its causality unchanged, and stores a token.  (3) `Set::wake` makes it `runnable` and joins the
+notifier's causality.  Concretely (kernel-checked): `Ex.wF15` — thread 1 waits on the condvar; thread 0's
+`unpark 1` leaves it blocked and in the queue (token stored, causality unchanged); thread 0's `notify_one` wakes
+it (runnable, causality `[4,1,0,0,0]`, queue empty, no token).  `Ex.wF15t` — thread 1 holds a token and runs
+stage 1 of `wait`: it enqueues itself, releases the mutex and blocks (not parked), token kept; thread 0 runs. -/
+theorem Condvar.unpark_is_no_notification :
+    (∀ w : World, w.blockNow = (do
+        let (e, _) ← ({ w.exec with threads :=
+            (w.ths.modifyActive fun th => { th.setBlocked with operation := none }) }).schedule
+              w.panicking
+        pure { w with exec := e }) ∧
+      (w.tid < w.ths.threads.length →
+        (w.ths.modifyActive fun th => { th.setBlocked with operation := none }).activeT =
+          { w.ths.activeT with state := .blocked, operation := none })) ∧
+    (∀ (w w' : World) (b : Bool), w.blockNow = .ok w' →
+      (w.setThs (w.ths.modifyActive fun th => { th with token := b })).blockNow =
+        .ok (w'.setThs (w'.ths.modify w.tid fun th => { th with token := b }))) ∧
+    (∀ t u : Thread, t.state = .blocked → t.parked = false →
+      t.unpark u = { t with token := true, unparkCaus := t.unparkCaus.join u.causality } ∧
+      (t.unpark u).state = .blocked ∧ (t.unpark u).causality = t.causality) ∧
+    (∀ (s : Threads) (id : Nat), id < s.threads.length → (s.get id).state = .blocked →
+      (s.get id).parked = false →
+      ((s.unpark id).get id).state = .blocked ∧ ((s.unpark id).get id).parked = false ∧
+      ((s.unpark id).get id).token = true ∧
+      (id ≠ s.activeId → ((s.wake id).get id).state = .runnable ∧
+        s.caus.le ((s.wake id).get id).causality ∧
+        ((s.wake id).get id).token = (s.get id).token)) ∧
+    ((Ex.wF15.ths.get 1).state = .blocked ∧ (Ex.wF15.ths.get 1).parked = false ∧
+      (Ex.wF15.runOp {} (.unpark 1)).toOption.map
+        (fun w' => ((w'.ths.get 1).state, (w'.ths.get 1).token, (w'.ths.get 1).parked)) =
+        some (.blocked, true, false) ∧
+      (Ex.wF15.runOp {} (.unpark 1)).toOption.map
+        (fun w' => ((w'.ths.get 1).causality, (w'.getCv 2).toOption.map (·.waiters))) =
+        some (Ex.vv [1, 1, 0, 0, 0], some [1]) ∧
+      (Ex.wF15.runOp { stage := 1 } (.cvOne 0)).toOption.map
+        (fun w' => ((w'.ths.get 1).state, (w'.ths.get 1).token, (w'.ths.get 1).causality,
+          (w'.getCv 2).toOption.map (·.waiters))) =
+        some (.runnable, false, Ex.vv [4, 1, 0, 0, 0], some []) ∧
+      (Ex.wF15t.runOp { body := 1, stage := 1 } (.cvWait 0 0)).toOption.map
+        (fun w' => ((w'.ths.get 1).state, (w'.ths.get 1).parked, (w'.ths.get 1).token, w'.ths.active)) =
+        some (.blocked, false, true, some 0) ∧
+      (Ex.wF15t.runOp { body := 1, stage := 1 } (.cvWait 0 0)).toOption.map
+        (fun w' => ((w'.getCv 2).toOption.map (·.waiters), (w'.getMutex 0).toOption.map (·.lock))) =
+        some (some [1], some none)) := by
+  refine ⟨fun w => ⟨blockNow_eq w, fun hin => ?_⟩, fun w w' b h => blockNow_token_independent h b,
+    fun t u hb hp => ?_, fun s id hin hb hp => ?_,
+    ⟨by decide, by decide, Ex.F15_unpark_does_not_wake.1, Ex.F15_unpark_does_not_wake.2,
+      Ex.F15_notify_wakes, Ex.F15_token_is_no_notification.1, Ex.F15_token_is_no_notification.2⟩⟩
+  · have hin' : w.ths.activeId < w.ths.threads.length := hin
+    show (w.ths.modify w.ths.activeId _).get w.ths.activeId = _
+    rw [get_modify_self _ _ _ hin']
+    rfl
+  · have hl : t.state ≠ .terminated := by rw [hb]; simp
+    have e2 : t.unpark u = { t with token := true, unparkCaus := t.unparkCaus.join u.causality } := by
+      unfold Thread.unpark
+      rw [setUnparked_live (t := { t with unparkCaus := t.unparkCaus.join u.causality }) hp hl]
+    exact ⟨e2, by rw [e2]; exact hb, (unpark_causality_not_parked u hp).1⟩
+  · obtain ⟨f1, f2, f3⟩ := unpark_get_fields s id hin
+    obtain ⟨g1, g2, g3⟩ := setUnparked_state_of_not_parked hp
+    have hterm : (s.get id).isTerminated = false := by
+      unfold Thread.isTerminated; rw [hb]; rfl
+    refine ⟨by rw [f1, g1]; exact hb, by rw [f2, g2], by rw [f3, g3, hterm]; simp, fun hne => ?_⟩
+    obtain ⟨e1, e2, _⟩ := wake_other_get hne hin
+    refine ⟨?_, e2, ?_⟩
+    · rw [e1, wakeFrom_blocked hb hp]
+    · rw [e1, C08.wakeFrom_token]
 
 /-- `wait`, stage 1 (after its branch point): the caller is appended at the END of `waiters`, the
-mutex is released (`release_lock`), then the caller parks (`rt::park`).  Stage 2: the branch point
-of `acquire_lock`, blocked exactly when the mutex is held. -/
-theorem Condvar.wait_enqueues_releases_parks (w : World) (c : TCtl) (vi mi : Nat) :
+mutex is released (`release_lock`), then the caller blocks itself with `rt::block` (NOT `rt::park`: repair of
+finding F15 — see `Condvar.unpark_is_no_notification`).  Stage 2: the branch point of `acquire_lock`, blocked
+exactly when the mutex is held. -/
+theorem Condvar.wait_enqueues_releases_blocks (w : World) (c : TCtl) (vi mi : Nat) :
     (∀ s, w.exec.objs[w.cvObj vi]? = some (.condvar s) → c.stage = 1 →
       w.runOp c (.cvWait vi mi) = (do
         let w2 ← (w.setObj (w.cvObj vi)
           (.condvar { s with waiters := s.waiters ++ [w.tid] })).releaseLock (w.mutexObj mi)
-        (w2.setStage 2).parkNow)) ∧
+        (w2.setStage 2).blockNow)) ∧
     (∀ m, w.exec.objs[w.mutexObj mi]? = some (.mutex m) → c.stage = 2 →
       w.runOp c (.cvWait vi mi) =
-        (w.setStage 3).branch (w.mutexObj mi) .opaque (block := m.lock.isSome)) :=
+        (w.setStage 3).branch (w.mutexObj mi) .opaque (block := m.lock.isSome) (wait := true)) :=
   ⟨fun _ h hs => cvWait_stage1 h hs, fun _ h hs => cvWait_stage2 h hs⟩
 
 /-- Condvar waiters re-acquire the mutex before returning: the last stage of `wait` is
